@@ -110,6 +110,32 @@ func raceCmd(t *rapid.T) []string {
 			{"SCRIPT", "LOAD", "return 1"}, {"SCRIPT", "FLUSH"},
 			{"GC"}, {"AOFSHRINK"},
 		}).Draw(t, "misc")
+	case 10, 11:
+		// scripts with several writes and read-modify-write scripts, started
+		// plainly or behind the TIMEOUT prefix, as EVAL / EVALNA / EVALRO
+		twoWrites := "tile38.call('SET', ARGV[1], ARGV[2], 'POINT', '33.001', '-115.001') " +
+			"tile38.call('FSET', ARGV[1], ARGV[2], 'f', '7') " +
+			"tile38.call('SET', ARGV[1], 'z' .. ARGV[2], 'POINT', '33.2', '-115') return 1"
+		incr := "local r = tile38.pcall('FGET', ARGV[1], ARGV[2], 'n') local v = (tonumber(r) or 0) + 1 " +
+			"tile38.call('SET', ARGV[1], ARGV[2], 'FIELD', 'n', tostring(v), 'POINT', '33', '-115') return v"
+		read := "return tile38.call('SCAN', ARGV[1], 'COUNT')"
+		var cmd []string
+		switch rapid.IntRange(0, 5).Draw(t, "tscript") {
+		case 0, 1:
+			cmd = []string{"EVAL", twoWrites, "0", key, id}
+		case 2, 3:
+			cmd = []string{"EVAL", incr, "0", key, id}
+		case 4:
+			cmd = []string{"EVALNA", twoWrites, "0", key, id}
+		default:
+			cmd = []string{"EVALRO", read, "0", key}
+		}
+		if rapid.IntRange(0, 3).Draw(t, "timeout?") != 0 {
+			cmd = append([]string{"TIMEOUT", "30"}, cmd...)
+		}
+		return cmd
+	case 12:
+		return []string{"TIMEOUT", "30", rapid.SampledFrom([]string{"SCAN", "SEARCH", "BOUNDS"}).Draw(t, "tread"), key}
 	default:
 		return gen.KeyspaceCmd(t, gen.SmallNames)
 	}
@@ -486,7 +512,7 @@ func TestC07_Race_Workload(t *testing.T) {
 	}
 	c := ev.New("C07", "race", "exploration")
 	t.Cleanup(c.Flush)
-	c.Rule("the concurrent workload in a -race build, executed in a child process (GORACE log_path; reports parsed by the parent): 2-3 live fences (NEARBY/WITHIN/INTERSECTS/ROAM ... FENCE, the first two on the same collection) whose connections are drained, 4-6 client goroutines issuing SET of points moving in and out of the fences (a third with deadlines of 0.05-0.3 s, so the expiry sweeper deletes while clients write), DEL/FSET/EXPIRE, channel create/delete, SERVER/INFO/STATS, scripts, AOFSHRINK and the general keyspace generator (PDEL/DROP/RENAME/FLUSHDB included), with pauses. Violation: a DATA RACE report whose access stacks name a github.com/tidwall/tile38/internal frame, keyed by root cause (known ones by stable id, otherwise data-race:<top tile38 frame>) and deduplicated. Non-trivial: a child run in which both fences delivered events concurrently with writers (every run by construction); distinct by workload.")
+	c.Rule("the concurrent workload in a -race build, executed in a child process (GORACE log_path; reports parsed by the parent): 2-3 live fences (NEARBY/WITHIN/INTERSECTS/ROAM ... FENCE, the first two on the same collection) whose connections are drained, 4-6 client goroutines issuing SET of points moving in and out of the fences (a third with deadlines of 0.05-0.3 s, so the expiry sweeper deletes while clients write), DEL/FSET/EXPIRE, channel create/delete, SERVER/INFO/STATS, scripts (multi-write and read-modify-write EVAL/EVALNA/EVALRO, three quarters of them behind a TIMEOUT prefix), TIMEOUT-wrapped reads, AOFSHRINK and the general keyspace generator (PDEL/DROP/RENAME/FLUSHDB included), with pauses. Violation: a DATA RACE report whose access stacks name a github.com/tidwall/tile38/internal frame, keyed by root cause (known ones by stable id, otherwise data-race:<top tile38 frame>) and deduplicated. Non-trivial: a child run in which both fences delivered events concurrently with writers (every run by construction); distinct by workload.")
 	known := ev.KnownActive(fenceGroupsID)
 	seen := map[string]bool{}
 	if known {
